@@ -155,13 +155,18 @@ class Check(PropertyCheck):
             if k2 > m1:
                 k1 = k2 = 1
         head, meta = env_head(rng, pad=1 if rng.random() < 0.9 else 0)
+        many_same = rng.random() < 0.2
+        if many_same:
+            # sizes whose graphs can have equal numbers of nodes for different (jobs, machines) splits, classic instances
+            (j1, j2), (m1, m2) = rng.choice([((2, 3), (3, 4)), ((2, 4), (2, 4)), ((3, 4), (3, 4))])
+            al, rc, k1, k2 = 1, 0, 1, 1
         feats = gen_feats(rng)
         draws = [rng.randint(0, 60) for _ in range(400)]
         f = gen.gen_filter(rng)
         params = " ".join(map(str, [j1, j2, m1, m2, d1, d2, al, rc, k1, k2]))
         lines = ["new", gen.filter_line(f), "menv " + " ; ".join([params, head] + feats + [" ".join(map(str, draws))])]
         steps = 0
-        many = rng.random() < 0.25       # many short (abandoned) episodes: what one episode leaves behind must not show in the next
+        many = many_same or rng.random() < 0.25       # many short (abandoned) episodes: what one episode leaves behind must not show in the next
         for ep in range(rng.randint(5, 10) if many else rng.randint(1, 3)):
             lines.append("mreset")
             for _ in range(rng.randint(0, 3) if many and rng.random() < 0.7 else rng.randint(0, j2 * m2)):
